@@ -1507,7 +1507,11 @@ def _make_dims(indices, numblocks, new_axes):
     """
     dims = broadcast_dimensions(indices, numblocks)
     for k, v in new_axes.items():
-        dims[k] = len(v) if isinstance(v, tuple) else 1
+        # After fusion an index can be both the new axis of a fused producer
+        # and an index of another input that the producer was broadcast
+        # against.  The inputs then determine the number of blocks.
+        if dims.get(k, 1) == 1:
+            dims[k] = len(v) if isinstance(v, tuple) else 1
     return dims
 
 
